@@ -28,7 +28,9 @@ try:
     if rc != 0:
         res["apply_error"] = out[-300:]
     else:
-        rc, out = sh(f"/venv/bin/python {seed}/demo.py", cwd=wt, timeout=1800)
+        demo_tmp = tempfile.mkdtemp(prefix="seed-demo-")      # demos (and the library they drive) leave files in the temp directory
+        demo_env = dict(os.environ, TMPDIR=demo_tmp)
+        rc, out = sh(f"/venv/bin/python {seed}/demo.py", cwd=wt, env=demo_env, timeout=1800)
         res["demo_changed_rc"] = rc
         res["demo_changed_tail"] = out.strip().splitlines()[-1][:200] if out.strip() else ""
         if tests:
@@ -56,8 +58,9 @@ try:
         res["check_wall"] = round(time.time() - t0, 1)
         res["check_lines"] = [l for l in out.splitlines() if l.startswith("VIOLATION") or l.startswith("[") or "FAILURE" in l or "ERROR" in l][-4:]
         sh("git reset -q --hard HEAD", cwd=wt)     # (a 3-way apply stages the patch: restore index and tree)
-        rc, out = sh(f"/venv/bin/python {seed}/demo.py", cwd=wt, timeout=1800)
+        rc, out = sh(f"/venv/bin/python {seed}/demo.py", cwd=wt, env=demo_env, timeout=1800)
         res["demo_original_rc"] = rc
+        shutil.rmtree(demo_tmp, ignore_errors=True)
 finally:
     sh(f"git -C /repo worktree remove --force {wt}")
     shutil.rmtree(wt, ignore_errors=True)
